@@ -272,7 +272,8 @@ def netcdf_file(ai, path, missing_enc="nan", missing_encs=None, with_vars=("loca
         v = ds.createVariable("altitude", "f4", ("location",))
         v[:] = np.array([l[3] for l in ai.locs], dtype="f4")
 
-    explicit_fill = 9.0e36 if fill_value is None else fill_value
+    # an ordinary number as the explicit _FillValue: it is missing only because the file declares it so
+    explicit_fill = -9999.0 if fill_value is None else fill_value
 
     def enc_of(f, pos):
         if missing_encs is not None and (f, pos) in missing_encs:
